@@ -27,6 +27,7 @@ fn main() {
             variants: arg(&args, "--variants").map(|v| v != "default").unwrap_or(true),
             max_mismatch_traces: arg(&args, "--max-mismatch").and_then(|v| v.parse().ok()).unwrap_or(200),
             sample_every: arg(&args, "--sample-every").and_then(|v| v.parse().ok()).unwrap_or(500),
+            want_ex: arg(&args, "--want-ex").map(|v| v.split(',').map(|s| s.to_string()).collect()).unwrap_or_default(),
         }),
         "worker" => replay::worker(arg(&args, "--variants").map(|v| v != "default").unwrap_or(true), arg(&args, "--sample-every").and_then(|v| v.parse().ok()).unwrap_or(500)),
         "drive" => drive::run(drive::DriveCfg {
